@@ -108,7 +108,7 @@ def run_tlc(workdir, module, cfg, specs, workers=16, timeout=900, args=(), deque
     if d:
         res['depth'] = int(d.group(1))
     res['complete'] = 'Model checking completed. No error has been found.' in out
-    res['violated'] = re.findall(r'Error: (?:Invariant|Action property|Temporal properties?) ?(\w*) (?:is|were) violated', out)
+    res['violated'] = re.findall(r'Error: (?:Invariant|Action property|Temporal property|Temporal properties) ?(\w*) (?:is|was|were) violated', out)
     res['timeout'] = (rc == 124)
     shutil.rmtree(os.path.join(workdir, 'md'), ignore_errors=True)
     shutil.rmtree(os.path.join(workdir, 'states'), ignore_errors=True)
@@ -122,9 +122,28 @@ def parse_behaviour(text):
     for line in text.splitlines():
         m = LABEL_RE.match(line)
         if m:
-            args = [a.strip() for a in m.group(3).split(',')] if m.group(3) else []
-            acts.append((m.group(2), args))
+            acts.append((m.group(2), split_args(m.group(3)) if m.group(3) else []))
     return acts
+
+def split_args(s):
+    """split a TLC label argument list at top-level commas (sets / tuples / records stay whole)"""
+    out, depth, cur = [], 0, ''
+    for ch in s:
+        if ch in '{<[(':
+            depth += 1
+        elif ch in '}>])':
+            depth -= 1
+        if ch == ',' and depth == 0:
+            out.append(cur.strip()); cur = ''
+        else:
+            cur += ch
+    if cur.strip():
+        out.append(cur.strip())
+    return out
+
+def setval(a):
+    """{"a", "b"} -> ['a', 'b']"""
+    return sorted(x.strip().strip('"') for x in a.strip('{}').split(',') if x.strip())
 
 def argval(a):
     if a == 'TRUE':
@@ -155,6 +174,8 @@ def error_trace(res):
     """Extract the counterexample behaviour of a failed model-checking run."""
     out = res['out']
     i = out.find('Error: The behavior up to this point is:')
+    if i < 0:
+        i = out.find('The following behavior constitutes a counter-example')
     if i < 0:
         return []
     return parse_behaviour(out[i:])
